@@ -8,6 +8,9 @@ Two parts.
     thread of its own, so that stack depth - which `nearing_recursion_limit` reads - is the same), then all 8
     concurrently behind a barrier with `sys.setswitchinterval(1e-6)` (restored afterwards).  Every observation
     (html, toc, Meta) of the concurrent run must equal that of the sequential run.  A case = one compared conversion.
+    One round in ten (at least one per call) is a CONTENTION round: the 8 threads all use attribute lists / fenced code / extra
+    (+ toc, footnotes, abbr, smarty, tables) on documents of 80 constructs each, dense in key=value attribute lists, footnotes,
+    abbreviations, references, every value carrying the number of its thread (`dense_round`).
     The inputs are deterministic in `rng`; the interleaving itself is the OS's.
  2. WRITE-FOOTPRINT CENSUS (`census()`, run once per search; deterministic).  Static: AST scan of markdown/**/*.py for
     run-time writes to module- or class-level state.  Dynamic: fingerprint of all module globals and class
@@ -43,10 +46,38 @@ DYN_ALLOW = {
         'lru_cache memo of the entry-point list: written once with the value of a pure function of the installation (memo cell)',
     ('markdown.extensions.attr_list._scanner', 'match'):
         're.Scanner.scan (stdlib) stores the last match on the shared scanner object before calling an action; the actions '
-        'of attr_list take the token text only and never read it (write-only scratch)',
+        'of attr_list take the token text only and never read it (write-only scratch) - CHECKED on every run by allow_conditions()',
 }
 # besides: an entry whose value is a *module* appearing in a package namespace (lazy `import_module` of an extension sets
 # `markdown.extensions.<name>`): sys.modules / importlib are trusted (DESIGN C12 Limits); handled by _is_lazy_import.
+
+
+def allow_conditions():
+    """The allow-list entries are conditional on their justification; what can be checked is checked here (deterministic, no
+    threads involved).  -> [(namespace, attribute, what no longer holds)]
+    `_scanner.match`: re.Scanner.scan stores the current match on the ONE module-level scanner object right before it calls the
+    action `action(scanner, token_text)`.  That is harmless only as long as no action looks at the scanner object: every action of
+    the lexicon must be a plain function that never reads its first parameter (a read of `scanner.match` in one thread can see
+    the match of another thread's document)."""
+    import dis
+    bad = []
+    try:
+        from markdown.extensions import attr_list
+        sc = getattr(attr_list, '_scanner', None)
+    except Exception:
+        sc = None
+    if sc is not None:
+        for phrase, action in getattr(sc, 'lexicon', []):
+            if action is None or isinstance(action, str): continue
+            code = getattr(action, '__code__', None)
+            if code is None or code.co_argcount < 1:
+                bad.append(('markdown.extensions.attr_list._scanner', 'match', 'action %r for %r is not a plain function: cannot tell that it ignores the scanner' % (action, phrase))); continue
+            first = code.co_varnames[0]
+            reads = [i.opname for i in dis.get_instructions(code) if i.argval == first and i.opname.startswith(('LOAD_FAST', 'LOAD_DEREF', 'LOAD_CLOSURE'))]
+            if first in code.co_cellvars or reads:
+                bad.append(('markdown.extensions.attr_list._scanner', 'match',
+                            'scanner action %s (pattern %r) reads the scanner object it is handed (%s): the shared per-scanner state `match` is no longer write-only' % (getattr(action, '__name__', action), phrase, ', '.join(sorted(set(reads))) or 'closure')))
+    return bad
 
 
 def _is_lazy_import(before, after):
@@ -236,7 +267,7 @@ def census(batch=120, pristine=True):
         if ns == '<footprint child>': continue
         if (ns, attr) in DYN_ALLOW or (ns, '*') in DYN_ALLOW or _is_lazy_import(a, b): continue
         new_dyn.append((ns, attr, a, b, phase))
-    return {'static': st, 'dynamic': {'%s :: %s' % k: v for k, v in dy.items()}, 'new_static': new_static, 'new_dynamic': new_dyn}
+    return {'static': st, 'dynamic': {'%s :: %s' % k: v for k, v in dy.items()}, 'new_static': new_static, 'new_dynamic': new_dyn, 'allow_broken': allow_conditions()}
 
 
 # ---- threaded runs ---------------------------------------------------------------------------------------------------
@@ -281,6 +312,37 @@ def _mismatch(cfgs, seqs):
     return [(i, j, x, y) for i in range(len(cfgs)) for j, (x, y) in enumerate(zip(a[i], b[i] + [None] * (len(a[i]) - len(b[i])))) if x != y]
 
 
+# ---- contention rounds --------------------------------------------------------------------------------------------------
+# All threads use the SAME extensions at the same moment on documents that are dense in constructs handled through state that is
+# shared by all instances of the process if anything is (the module-level attribute-list scanner, compiled patterns, class-level
+# tables), every value carrying the number of its thread - what one thread reads from another thread's document shows in its output.
+DENSE_CONFIGS = [{'extensions': ['attr_list']}, {'extensions': ['fenced_code', 'attr_list']}, {'extensions': ['extra']}, {'extensions': ['attr_list', 'sane_lists'], 'tab_length': 8},
+                 {'extensions': ['attr_list', 'toc', 'footnotes']}, {'extensions': ['extra', 'smarty', 'toc']}, {'extensions': ['fenced_code', 'abbr'], 'output_format': 'html'},
+                 {'extensions': ['attr_list', 'tables', 'abbr', 'footnotes', 'wikilinks']}]
+
+
+def dense_doc(rng, t, lines):
+    out = []
+    for i in range(lines):
+        k = rng.randrange(8)
+        if k == 0: out.append('# H%d {: #h%d-%d k%d=v%d title="T %d" data-o=\'o %d\' }' % (i, t, i, t, t, t, t))
+        elif k == 1: out.append('para *e*{: .e a%d=b%d lang=\'l%d\' } and [l](/u){: rel="r%d" x=y%d }' % (t, t, t, t, t))
+        elif k == 2: out.append('text %d\n{: #p%d-%d data-owner=\'thread %d\' q="%d" }' % (i, t, i, t, t))
+        elif k == 3: out.append('``` { .l%d #c%d-%d data-o="t %d" title=\'b %d\' key%d=val%d }\ncode %d\n```' % (t, t, i, t, i, t, t, t))
+        elif k == 4: out.append('note%d[^n%d] again[^n%d] AB%d [[Page %d]]\n\n[^n%d]: body %d\n\n*[AB%d]: abbr of %d' % (i, t, t, t, t, t, t, t, t))
+        elif k == 5: out.append('[r%d][] and [x][r%d] "q%d" -- \'s%d\'...\n\n[r%d]: /u%d "t %d"' % (t, t, t, t, t, t, t))
+        elif k == 6: out.append('| a%d | b {: k=%d } |\n|---|:-:|\n| `c%d` | d |' % (t, t, t))
+        else: out.append('Title %d\n=======\n\n- i%d\n    - n%d\n\nTerm%d\n:   def %d' % (t, t, t, t, t))
+    return '\n\n'.join(out)
+
+
+def dense_round(rng, lines=80):
+    cfgs = [dict(c, extension_configs={}) for c in DENSE_CONFIGS]
+    rng.shuffle(cfgs)
+    seqs = [[dense_doc(rng, t, lines) for _ in range(2)] for t in range(len(cfgs))]
+    return cfgs, seqs
+
+
 def replay(witness):
     return False
 
@@ -290,23 +352,28 @@ def replay_violation(v):
     if isinstance(inp, dict) and 'configs' in inp:
         return any(_mismatch(inp['configs'], inp['seqs']) for _ in range(20))   # a race needs several attempts
     c = census(batch=60)
-    return bool(c['new_static'] or c['new_dynamic'])
+    return bool(c['new_static'] or c['new_dynamic'] or c['allow_broken'])
 
 
 def search(driver, rng, n):
     dist = {'rounds': 0, 'threads': N_THREADS, 'conversions': 0, 'exceptions': 0, 'pieces': {}, 'ext_count': {}, 'static_sites': 0, 'dynamic_written': 0}
     viol = []; samples = []; seen = set(); cases = 0
     rounds = max(1, n // 50)
-    for _ in range(rounds):
-        cfgs = []
-        while len(cfgs) < N_THREADS:
-            c = D.config(rng)
-            try: D.make(c)
-            except Exception: continue
-            if c in cfgs and rng.random() < 0.8: continue     # differently configured (identical ones only occasionally)
-            cfgs.append(c)
-            dist['ext_count'][len(c['extensions'])] = dist['ext_count'].get(len(c['extensions']), 0) + 1
-        seqs = [[D.document(rng, counters=dist['pieces']) for _ in range(rng.randint(3, 9))] for _ in range(N_THREADS)]
+    n_dense = max(1, rounds // 10)             # contention rounds (see dense_round): one in ten, at least one per call
+    for rnd in range(rounds):
+        if rnd < n_dense:
+            cfgs, seqs = dense_round(rng)
+            dist['dense_rounds'] = dist.get('dense_rounds', 0) + 1
+        else:
+            cfgs = []
+            while len(cfgs) < N_THREADS:
+                c = D.config(rng)
+                try: D.make(c)
+                except Exception: continue
+                if c in cfgs and rng.random() < 0.8: continue     # differently configured (identical ones only occasionally)
+                cfgs.append(c)
+                dist['ext_count'][len(c['extensions'])] = dist['ext_count'].get(len(c['extensions']), 0) + 1
+            seqs = [[D.document(rng, counters=dist['pieces']) for _ in range(rng.randint(3, 9))] for _ in range(N_THREADS)]
         a, b = run_round(cfgs, seqs)
         dist['rounds'] += 1
         for i in range(N_THREADS):
@@ -329,6 +396,10 @@ def search(driver, rng, n):
         for ns, attr, x, y, phase in c['new_dynamic']:
             viol.append({'input': {'site': [ns, attr]}, 'config': {}, 'observed': 'shared state written at run time (%s): %s :: %s  %s -> %s' % (phase, ns, attr, x, y),
                          'required': 'module globals and class dictionaries of markdown.* unchanged by constructing/using instances (allow-list: memo cells)', 'finding': None})
+        for ns, attr, what in c['allow_broken']:
+            viol.append({'input': {'site': [ns, attr], 'condition': what}, 'config': {}, 'observed': 'allow-listed shared cell %s :: %s: %s' % (ns, attr, what),
+                         'required': 'shared state that every instance writes is on the allow-list only while nothing reads it back (write-only scratch) or it is a memo of a pure function', 'finding': None})
+        dist['allow_conditions_checked'] = 1
         cases += 1
     except Exception as e:   # the census must not take the search down; say so
         dist['census_error'] = repr(e)[:300]
